@@ -49,9 +49,9 @@ def fixDateHeader (g : Glue) (h : Header) (receivedAt : Int) : Header :=
 
 def hopByHopBase : List Str := Generated.hopByHop.map String.toList
 
-/-- hopByHopHeaders: the fixed set plus the fields named by Connection (first line) -/
+/-- hopByHopHeaders: the fixed set plus the fields named by every Connection field line -/
 def hopByHopHeaders (h : Header) : List Str :=
-  hopByHopBase ++ trimmedCSVCanonical (Header.get h sConnection)
+  hopByHopBase ++ (Header.values h sConnection).flatMap trimmedCSVCanonical
 
 /-- removeHopByHopHeaders (`delete(resp.Header, hdr)`: exact key, no canonicalisation) -/
 def removeHopByHop (h : Header) : Header :=
